@@ -17,7 +17,7 @@ RULE = ('roundtrip units: random lists of 0..8 (key,value) pairs, keys non-empty
         'through a handler behind Ombott.__call__. totality units: every string of length<=N over {a,=,&,%,+,2} fed to parse_qsl in '
         'all three of its output modes under a step budget, plus random junk incl. lone surrogates-free Unicode. Non-trivial = '
         'the pair list has a repeated key or a character that needs escaping; distinct = distinct encoded string.')
-REQUIRED = ['roundtrips_query', 'roundtrips_forms', 'roundtrips_params', 'repeated_key_cases', 'list_values_seen',
+REQUIRED = ['body_consumed_before_forms', 'roundtrips_query', 'roundtrips_forms', 'roundtrips_params', 'repeated_key_cases', 'list_values_seen',
             'totality_strings', 'via_wsgi', 'chunked_forms']
 EXHAUSTIVE = {'quick': False, 'thorough': False,
               'quick_note': 'totality sweep is complete for all strings of length<=6 over {a,=,&,%,+,2}',
@@ -116,6 +116,9 @@ def roundtrip_unit(ctx, unit):
     @app.route('/q', method=['GET', 'POST'])
     def h():
         rq = app.request
+        if seen.get('body_first'):
+            # the raw body is consumed (fully or partly) before the form is interpreted
+            seen['raw'] = rq.body.read(seen['body_first'])
         seen['query'] = dict(rq.query)
         seen['forms'] = dict(rq.forms)
         seen['params'] = dict(rq.params)
@@ -182,6 +185,9 @@ def one_roundtrip(ctx, app, seen, rng, pairs, exp, enc, mode, wit):
     else:
         seen.clear()
         use_form = rng.random() < 0.5
+        if use_form and rng.random() < 0.5:
+            seen['body_first'] = rng.choice([-1, 1, 3, 10000])
+            ctx.count('body_consumed_before_forms')
         if use_form:
             env = make_environ('POST', '/q', body=enc.encode('ascii'), content_type='application/x-www-form-urlencoded')
         else:
